@@ -23,9 +23,15 @@ class Log:
 
     def __init__(self):
         self.calls = []  # (node_name, {param: value})
+        self.decisions = []  # (position in calls, gate name, decision) in execution order
 
     def clear(self):
         self.calls.clear()
+        self.decisions.clear()
+
+    def decided(self, gate, decision):
+        self.decisions.append((len(self.calls), gate, decision))
+        return decision
 
     def multiset(self):
         out = {}
